@@ -71,7 +71,7 @@ func main() {
 	program := func(prefix string, tok string, spin int) string {
 		// (every predefined / library function is called, 取随机数 several times per pass: what
 		// they share process-wide is exercised by all goroutines at once)
-		return fmt.Sprintf("导入《@JSON》\n%s令计 = 0\n令典 = 【“a” = 1】\n令随 = 0\n每当计 < %d：\n\t计 = 计 + 1\n\t典#“k” = 计\n\t随 = 随 +（取随机数）+（取随机数）\n令文 =（生成JSON：典）\n令回 =（解析JSON：文）\n输出“%s”\n", prefix, spin, tok)
+		return fmt.Sprintf("导入《@JSON》\n%s令计 = 0\n令典 = 【“a” = 1】\n令随 = 0\n每当计 < %d：\n\t计 = 计 + 1\n\t典#“k” = 计\n\t随 = 随 +（取随机数）+（取随机数）\n令文 =（生成JSON：典）\n令回 =（解析JSON：文）\n令读 = 以典（读取：“a”）\n令读二 = 以【“x” = 【“y” = 1】】（读取：“x”、“y”）\n令片 = 以“a，b”（分隔：“，”）\n令替 = 以“aXb”（替换：“X”、“-”）\n输出“%s”\n", prefix, spin, tok)
 	}
 	switch *mode {
 	case "playground":
